@@ -280,7 +280,13 @@ class Sh:
             src = s if name == "hash_si" else x
             if 1 <= i <= 0xFFFFFFFF:
                 return want_int(djb(src, i))
-            return None if v[0] in ("i", "null") else ("type", "expected integer or null")
+            # outside the documented bucket range [1..n]: a BLOC error (handled by the caller) or null; more than 2^32-1 buckets can only
+            # mean the plain 32-bit hash; a number for a zero or negative bucket count is not a documented value
+            if v[0] == "null": return None
+            if v[0] != "i": return ("type", "expected integer or null")
+            if i > 0xFFFFFFFF:
+                return None if v[1] in (djb(src, 1 << 32), djb(src, 0xFFFFFFFF)) else ("bucket-range", "hash(.., %d) = %d is not the 32-bit hash of the data" % (i, v[1]))
+            return ("bucket-range", "hash(.., %d) returned %d: no value is documented for a bucket count below 1" % (i, v[1]))
         if name == "raw_s": return want_bytes(s)
         if name == "str_x":
             return None if v[0] in ("s", "null") else ("type", "expected string")
@@ -358,7 +364,13 @@ class Sh:
                     except ValueError:
                         V("value", "hex() output %r is not hexadecimal" % txt); continue
                     if back != (i & ((1 << 64) - 1)): V("value", "hex(%d,%d) = %r parses back to %d" % (i, k, txt, back))
-                    else: self.res["nontrivial"].add(key)
+                    else:
+                        # "optionally with the number y of leading zeros": under either reading (y = zeros added, or y = minimum number of
+                        # digits) the zeros added are between 0 and max(y, 0); in particular none for y <= 0
+                        minimal = "%x" % (i & ((1 << 64) - 1))
+                        added = len(txt) - len(minimal)
+                        if added < 0 or added > max(k, 0): V("padding", "hex(%d,%d) = %r has %d leading zeros" % (i, k, txt, added))
+                        else: self.res["nontrivial"].add(key)
                 elif name == "str_i":
                     if g[0] != "val" or g[1] != ("s", str(i).encode()): V("value", "str(%d) = %r" % (i, g))
                     else: self.res["nontrivial"].add(key)
